@@ -84,13 +84,18 @@ def rule_xport(m):
             ins = [(n, 'reciprocal') for n in _calls(f, 'addReciprocalEdge')] + [(n, 'single') for n in _calls(f, 'addEdge')]
             body = set(f.descendants(loops[0]['body']))
             ins = [(n, k) for n, k in ins if n['i'] in body]
-            # orientation contract over the order domain
+            from .rules_pair import Ctx as _Ctx
+            pctx = _Ctx(m, f)
+
+            def un(t):
+                return pctx.unconst(t)
+            # orientation contract over the order domain: the multiset of oriented pairs inserted for one enumerated edge
             for (va, vb) in ORDERINGS:
                 got = []
                 for n, kind in ins:
                     fire = True
                     for dep in f.region(n['i']) - f.region(loops[0]['loopvarstmt']):
-                        t = tt.t(f.branch_atom(dep[0]))
+                        t = un(pctx.resolve(tt.t(f.branch_atom(dep[0]))))
                         v = eval_order(t, {fi: va, se: vb})
                         if v is None:
                             fire = None
@@ -99,26 +104,39 @@ def rule_xport(m):
                             fire = False
                             break
                     if fire is None:
-                        why = 'insertion guard not evaluable over the orderings of (first, second)'
+                        why = 'expected insertion guards that compare first and second of the enumerated edge'
                     elif fire:
-                        got.append(kind)
-                want = {(0, 1): ['reciprocal'], (1, 1): ['single'], (1, 0): []}[(va, vb)]
-                if why is None and sorted(got) != want:
-                    why = 'for %s the conversion performs %s, expected %s' % (
-                        {(0, 1): 'first<second', (1, 1): 'first=second', (1, 0): 'first>second'}[(va, vb)], got, want)
+                        a = [un(tt.t(x)) for x in n['args']]
+                        val = {fi: va, se: vb}
+                        if a[0] not in val or a[1] not in val:
+                            why = why or 'the endpoints inserted are not those of the enumerated edge'
+                            continue
+                        pa, pb = val[a[0]], val[a[1]]
+                        got.append((pa, pb))
+                        if kind == 'reciprocal':
+                            got.append((pb, pa))
+                want = {(0, 1): [(0, 1), (1, 0)], (1, 1): [(1, 1)], (1, 0): []}[(va, vb)]
+                if why is None and sorted(got) != sorted(want):
+                    why = 'for %s the conversion inserts the oriented pairs %s, expected %s (first=%d, second=%d)' % (
+                        {(0, 1): 'first<second', (1, 1): 'first=second', (1, 0): 'first>second'}[(va, vb)], sorted(got), sorted(want), va, vb)
             for n, kind in ins:
-                a = [tt.t(x) for x in n['args']]
-                if a[:2] != [fi, se]:
-                    why = why or 'the endpoints inserted are not those of the enumerated edge'
+                a = [un(tt.t(x)) for x in n['args']]
                 labelled_overload = _label_param_count(f, n) == 4
                 if _is_labelled_inst(f) or labelled_overload:
                     if not labelled_overload:
                         why = why or ('the label-less overload %s(VertexIndex, VertexIndex, bool) is called in a labelled '
                                       'instantiation: the directed edges get default-constructed labels instead of the label of '
                                       'the undirected edge' % f.unit.decl(n['callee'])['name'])
-                    elif not (len(a) >= 3 and a[2][0] == 'mcall' and a[2][1].endswith('::getEdgeLabel') and a[2][2] == ('this',)
-                              and set(a[2][3][:2]) == {fi, se}):
-                        why = why or 'the inserted label is not getEdgeLabel of the enumerated edge'
+                    else:
+                        lab = a[2] if len(a) >= 3 else None
+                        if lab is not None and lab[0] == 'var':
+                            # a (const) local bound to the label of the enumerated edge
+                            defs = [d for d in var_defs(f, lab[1]) if d[1] >= 0]
+                            if len(defs) == 1:
+                                lab = un(tt.t(defs[0][1]))
+                        if not (lab is not None and lab[0] == 'mcall' and lab[1].endswith('::getEdgeLabel') and lab[2] == ('this',)
+                                and set(lab[3][:2]) == {fi, se}):
+                            why = why or 'the inserted label is not getEdgeLabel of the enumerated edge'
             dg = tt.t(ins[0][0]['obj']) if ins else None
             init = _local_init(f, tt, dg) if dg else None
             if why is None and not (init and init[0] == 'ctor' and init[2] and is_size_term(m, f, strip_cast(init[2][0]), tt)):
